@@ -180,6 +180,17 @@ func runUnit(res *common.Result) {
 			{mkPar(2, 1, false, 1, 2, false), 0}, {mkPar(2, 1, false, 1, 2, true), 0},
 			{mkPar(3, 1, false, 0, 1, false), 0}, {mkPar(3, 1, false, 1, 1, false), 0},
 		})
+	case "cancel-unbounded": // every interleaving (no preemption bound) of one run and one canceller
+		runItems([]item{
+			{mkPar(0, 1, false, 0, 0, false), -1}, {mkPar(0, 1, true, 0, 0, false), -1}, {mkPar(0, 2, false, 0, 0, false), -1},
+			{mkPar(1, 1, false, 0, 1, false), -1}, {mkPar(1, 1, false, 1, 1, false), -1}, {mkPar(1, 1, true, 0, 1, false), -1}, {mkPar(1, 1, false, 0, 2, true), -1},
+		})
+		res.Bound = -1
+	case "cancel-unbounded-t": // thorough: two runs and one canceller / one run and two cancellers without a bound (internal deadline)
+		runItems([]item{
+			{mkPar(1, 2, false, 0, 1, false), -1}, {mkPar(2, 1, false, 0, 1, false), -1}, {mkPar(2, 1, false, 1, 1, false), -1}, {mkPar(2, 2, false, 0, 1, false), -1},
+		})
+		res.Bound = -1
 	case "cancel-sched-q":
 		items := schedItems([][][]string{{{}}}, 2, 1)
 		items = append(items, schedItems([][][]string{{{}, {}}, {{}, {"p"}}, {{}, {"p"}, {"p"}}, {{}, {}, {"p", "q"}}, {{}, {"p"}, {"q"}}}, 1, 0)...)
